@@ -43,9 +43,9 @@ func mkdirCall(rt fsRoute, doc string, root *model.Node, opts []gtree.Option) Ou
 		case rt.FromRoot:
 			return gtree.MkdirFromRoot(BuildRoot(root), opts...)
 		case rt.Alias:
-			return gtree.Mkdir(strings.NewReader(doc), opts...)
+			return gtree.Mkdir(MDReader(doc), opts...)
 		default:
-			return gtree.MkdirFromMarkdown(strings.NewReader(doc), opts...)
+			return gtree.MkdirFromMarkdown(MDReader(doc), opts...)
 		}
 	})
 }
@@ -58,9 +58,9 @@ func verifyCall(rt fsRoute, doc string, root *model.Node, opts []gtree.Option) O
 		case rt.FromRoot:
 			return gtree.VerifyFromRoot(BuildRoot(root), opts...)
 		case rt.Alias:
-			return gtree.Verify(strings.NewReader(doc), opts...)
+			return gtree.Verify(MDReader(doc), opts...)
 		default:
-			return gtree.VerifyFromMarkdown(strings.NewReader(doc), opts...)
+			return gtree.VerifyFromMarkdown(MDReader(doc), opts...)
 		}
 	})
 }
